@@ -86,13 +86,14 @@ CHECKS = {
             "name.  The composition of these into one end-to-end statement about the result dict is checked, not proved: Validate.build is run in Coq on every "
             "subset case and must return exactly the implementation's result.  Findings K12-K14 recorded; F6 fixed (6ad4bca).",
             "full for the no-value law; object half = lemmas + correspondence (end-to-end composition not proved)"),
-    "C04": ("Coq theorems per element (scalars unaltered, number = float(int), arrays keep length/items, declared vs additional member resolution) + refuted witnesses (K8, K13) + vm_compute correspondence of every constructed result + retrieves oracle",
-            "PARTIAL proof: C04_scalar_unaltered, C04_number, C04_array_length, C04_array_no_items, C04_declared_member, C04_additional_member hold for every "
-            "element/oracle/value; the recursive statement 'every member at every depth is retrievable' is not proved as one theorem.  It is decided on each run by "
-            "(i) evaluating Validate.build in Coq on every generated (tree, value) and requiring the identical constructed result from the implementation, and (ii) the "
-            "retrieves walk of input vs returned model on the implementation.  The two false halves (equal float beyond 2^53, member collision) are refuted in Coq and "
-            "recorded as findings.",
-            "partial (per-element lemmas + refutations; the recursive composition is correspondence + oracle)"),
+    "C04": ("Coq theorem by induction on the element tree (C04_complete: every member of the input at every depth is held by the result) + per-element lemmas on names + refuted witnesses (K8, K13) + vm_compute correspondence of every constructed result + retrieves oracle",
+            "C04_complete: for every element tree, oracle and well-formed value, build O e (Some v) = Ok r implies holds r v (scalars unaltered or float(int) under a number schema, arrays item by item "
+            "in order, every member of every object of the value held under a key of the result; any nesting, tuple items, pattern/additional members, per-call AllOf, composition branches), under the "
+            "premise safe e v - well-formed property maps and no object of the value using the Python name of a renamed property as a member name (the negation of finding K13; executable Retr.safeb, "
+            "proved sound).  C04_scalar_unaltered, C04_number, C04_array_length, C04_array_no_items, C04_declared_member, C04_additional_member say under which names.  The two false halves (equal "
+            "float beyond 2^53, member collision) are refuted in Coq and recorded as findings.  Each run evaluates Validate.build in Coq on every generated (tree, value), requires the identical "
+            "constructed result from the implementation, counts the cases satisfying safeb, and walks input vs returned model on the implementation.",
+            "full under the named premise; that the only extra result keys are declared properties is by correspondence"),
     "C07": ("Coq theorem by case analysis over every branch of parse_element (the returned element carries the schema's default, all shapes, all default values) + signature obligations regenerated from /repo + default x shape x position oracle through parser, both serializers and the executed module + parse-tree correspondence",
             "C07_parsed_default is proved for every schema object, parse state and default value on the parser model (which includes the branches repaired by fixes "
             "804a592/773e603); C07_default_in_every_signature is the premise on the code.  The serializer halves and 'not moved/shared' are decided by the oracle: 20 "
@@ -112,18 +113,22 @@ CHECKS = {
             "to the code by comparing annotation texts of every generated element/property in Coq, and the oracle reads the generated annotation with `typing` and "
             "checks every attribute of every built model.",
             "full on the model (Annot.v + Validate.v) under the two named premises"),
-    "C03": ("Coq: serializer model SerJson.v with theorems on the emitted required/properties, refutations of the two repaired defects, generated keyword/type tables; decided per run by recomputing every generated document in Coq and evaluating the Draft-6 reference semantics (Spec6.v) on it against the element's verdicts",
-            "PARTIAL proof.  Proved: C03_required_complete, C03_properties_keyed_by_source; refuted on the old behaviour: C03_old_*_refuted (fixes f0c8af1, aba574c).  "
-            "The meaning-preservation statement over all trees is not a theorem yet: each run (i) recomputes every generated document with SerJson.ser_doc inside Coq and "
-            "requires equality with serialize_json's output, (ii) evaluates Spec6.v on the resolved document for values aimed at the tree and requires the element's verdict "
-            "to lie in the tolerated set, (iii) checks json.dumps, $ref resolution and the Draft-6 metaschema (jsonschema).  Findings K15, K21.",
-            "partial (lemmas + refutations; meaning preservation by model recomputation and the Spec6 oracle evaluated in Coq)"),
-    "C06": ("Coq models of both directions (Parser.v, SerJson.v) tied by correspondence on every run; idempotence decided by the real pipeline materialize->parse->serialize three times + executed Python classes vs parsed classes; parser default-preservation theorem (C07) and serializer lemmas (C03) are the proved ingredients",
-            "PARTIAL proof.  norm(norm S) = norm S is not proved as a theorem: materialize (json_ref_dict) is third-party and the title de-duplication makes the "
-            "statement FALSE in general (finding K22, a 2-cycle of class names).  What is proved are the ingredients on each side: the parser keeps every default "
-            "(C07_parsed_default), the serializer emits exactly the explicit+property required names under JSON names (C03_*), keyword/signature tables agree with /repo.  "
-            "The run decides idempotence on the implementation (J1 == J2 == J3 type-strictly, executed classes == parsed classes) and checks the parser model on the same documents.",
-            "partial (ingredient theorems + pipeline oracle); K22 recorded"),
+    "C03": ("Coq theorem by induction on the element tree (C03_meaning: the emitted document, read by Spec6.v6, accepts exactly what the tree accepts; reference-free trees) reusing C01's element lemmas through 27 keyword-lookup lemmas on the serializer model SerJson.v + refutations of the two repaired defects + generated keyword/type tables + per-run recomputation of every generated document in Coq and the Spec6 oracle on the resolved document",
+            "C03_meaning: for every reference-free element tree (no object class inside; typed elements within their constructor signature; distinct non-empty JSON names; a property both "
+            "required and defaulted also in the explicit required list; non-empty compositions; decided by SerFrag.dslb, proved sound), every oracle and value, the document the model serializer "
+            "writes accepts exactly the values the tree accepts (up to crashes).  Also C03_required_complete, C03_properties_keyed_by_source; refuted on the old behaviour: C03_old_*_refuted "
+            "(fixes f0c8af1, aba574c).  Trees with object classes ($ref, definitions, _from_definitions, orderer) are outside the theorem: each run (i) recomputes every generated document with "
+            "SerJson.ser_doc inside Coq and requires equality with serialize_json's output (and counts the trees the theorem applies to), (ii) evaluates Spec6.v on the resolved document for values "
+            "aimed at the tree and requires the element's verdict to lie in the tolerated set, (iii) checks json.dumps, $ref resolution and the Draft-6 metaschema (jsonschema).  Findings K15, K21.",
+            "full on reference-free trees; trees with classes by model recomputation and the Spec6 oracle evaluated in Coq"),
+    "C06": ("Coq theorem C06_normal_form_keeps_meaning (the parser's image is DSL-constructible, so C01 and C03 meet at the parsed element: serialize(parse S) accepts what S accepts) + models of both directions tied by correspondence on every run; syntactic idempotence decided by the real pipeline materialize->parse->serialize three times + executed Python classes vs parsed classes",
+            "C06_normal_form_keeps_meaning: for every schema of the class-free fragment with non-empty property names, the element the parser returns lies in the fragment of C03_meaning and the "
+            "document serialized from it is accepted (Spec6.v6) by exactly the values the source schema accepts, for every value on which the element's call does not crash.  The syntactic "
+            "norm(norm S) = norm S is not a theorem: materialize (json_ref_dict) is third-party and the title de-duplication makes it FALSE in general (finding K22, a 2-cycle of class names).  "
+            "Ingredients proved on each side: the parser keeps every default (C07_parsed_default), the serializer emits exactly the explicit+property required names under JSON names (C03_*), "
+            "keyword/signature tables agree with /repo.  The run decides idempotence on the implementation (J1 == J2 == J3 type-strictly, executed classes == parsed classes) and checks the parser "
+            "model on the same documents.  Findings K22, K23.",
+            "meaning preservation proved on the class-free fragment; syntactic idempotence by pipeline oracle"),
     "C09": ("Coq theorems quantified over ALL set-enumeration orders (parser order-free, sorted() output order-free, refutation for set-typed iteration) + set-iteration sites of the whole package regenerated from /repo and checked against the audited ones + byte comparison across 8/32 fresh interpreters with different PYTHONHASHSEED",
             "C09_order_free / C09_parse_order_free: the parser does not consult set order (proved from the iteration kind the translator reads from /repo: it fails when the "
             "loop iterates a set again); C09_sorted_is_order_free: sorted() of any enumeration of the same set is the same list; C09_set_iteration_audited: every "
